@@ -96,12 +96,16 @@ class Flow(object):
             for p in pnames:
                 nameset.update(p)
             for n in nameset:
-                nrow = set(r.get(n, UndefinedName(n)) for r in pnames)
+                nrow = []  # type: list[Name | UndefinedName]
+                for r in pnames:
+                    name = r.get(n, UndefinedName(n))
+                    if name not in nrow:
+                        nrow.append(name)
                 if len(nrow) == 1:
                     # single undefined names is not possible
-                    names[n] = list(nrow)[0]  # type: ignore[assignment]
+                    names[n] = nrow[0]  # type: ignore[assignment]
                 else:
-                    names[n] = MultiName(list(nrow))
+                    names[n] = MultiName(nrow)
             return names
         else:
             pscope = self.scope.parent
